@@ -20,6 +20,7 @@ type Reader struct {
 	buffer    []byte
 	fragments [][]byte
 	currType  uint8
+	pending   []*Entry // entries of a completely read batch, not yet delivered
 }
 
 // OpenReader creates a new Reader for the given WAL file
@@ -39,6 +40,47 @@ func OpenReader(path string) (*Reader, error) {
 
 // ReadEntry reads the next entry from the WAL
 func (r *Reader) ReadEntry() (*Entry, error) {
+	// Deliver the rest of a batch that was read completely
+	if len(r.pending) > 0 {
+		entry := r.pending[0]
+		r.pending = r.pending[1:]
+		return entry, nil
+	}
+
+	entry, err := r.readEntry()
+	if err != nil || entry.Type != opTypeBatch {
+		return entry, err
+	}
+
+	// A batch header: the batch counts only if all of its entries are there.
+	if len(entry.Value) != 4 {
+		return nil, fmt.Errorf("%w: malformed batch header", ErrCorruptRecord)
+	}
+	count := binary.LittleEndian.Uint32(entry.Value)
+	batch := make([]*Entry, 0, count)
+	for i := uint32(0); i < count; i++ {
+		e, err := r.readEntry()
+		if err != nil {
+			if err == io.EOF {
+				// the log ends inside the batch
+				err = io.ErrUnexpectedEOF
+			}
+			return nil, err
+		}
+		if e.Type == opTypeBatch || e.SequenceNumber != entry.SequenceNumber {
+			return nil, fmt.Errorf("%w: batch entry does not belong to its batch", ErrCorruptRecord)
+		}
+		batch = append(batch, e)
+	}
+	if len(batch) == 0 {
+		return r.ReadEntry()
+	}
+	r.pending = batch[1:]
+	return batch[0], nil
+}
+
+// readEntry reads the next logical entry (possibly a batch header) from the WAL
+func (r *Reader) readEntry() (*Entry, error) {
 	// Loop until we have a complete entry
 	for {
 		// Read a record
@@ -176,7 +218,7 @@ func (r *Reader) parseEntryData(data []byte) (*Entry, error) {
 	offset++
 
 	// Validate entry type
-	if entryType != OpTypePut && entryType != OpTypeDelete && entryType != OpTypeMerge {
+	if entryType != OpTypePut && entryType != OpTypeDelete && entryType != OpTypeMerge && entryType != opTypeBatch {
 		return nil, fmt.Errorf("%w: %d", ErrInvalidOpType, entryType)
 	}
 
